@@ -82,19 +82,24 @@ Section Source.
 
   (* ---- CoC ---- *)
   (* loop state: (texts, diceMin, diceMax, num10Exists) *)
-  Fixpoint coc_loop (fuel : nat) (k : nat) (mode : Z) (acc : list string * Z * Z * bool) (s : S)
+  (* one extra tens die: in min mode a PENALTY die takes face 10 (digit 0), the face that
+     minimises a penalty roll (fix of defect #33); otherwise Roll(src, 10, mode) *)
+  Definition coc_die (fuel : nat) (isBonus : bool) (mode : Z) (s : S) : outcome (Z * S) :=
+    if (mode =? -1) && negb isBonus then Done (10, s) else roll next fuel 10 mode s.
+
+  Fixpoint coc_loop (fuel : nat) (k : nat) (isBonus : bool) (mode : Z) (acc : list string * Z * Z * bool) (s : S)
     : outcome ((list string * Z * Z * bool) * S) :=
     match k with
     | O => Done (acc, s)
     | Datatypes.S k' =>
-      match roll next fuel 10 mode s with
+      match coc_die fuel isBonus mode s with
       | OutOfFuel => OutOfFuel
       | Done (n, s1) =>
         let '(nums, dmin, dmax, ten) := acc in
         let acc' :=
           if n =? 10 then ((nums ++ ["0"])%list, dmin, dmax, true)
           else ((nums ++ [show_Z n])%list, (if n <? dmin then n else dmin), (if dmax <? n then n else dmax), ten) in
-        coc_loop fuel k' mode acc' s1
+        coc_loop fuel k' isBonus mode acc' s1
       end
     end.
 
@@ -104,7 +109,7 @@ Section Source.
     | Done (res, s1) =>
       let tens := Z.quot res 10 in
       let units := Z.rem res 10 in
-      match coc_loop fuel (Z.to_nat diceNum) mode ([], tens, tens, false) s1 with
+      match coc_loop fuel (Z.to_nat diceNum) isBonus mode ([], tens, tens, false) s1 with
       | OutOfFuel => OutOfFuel
       | Done ((nums, dmin, dmax, ten), s2) =>
         if isBonus then
@@ -248,7 +253,8 @@ Arguments roll_coc {S} next fuel isBonus diceNum mode s.
 Arguments roll_fate {S} next fuel mode s.
 Arguments roll_wod {S} next rfuel fuel addLine pool points threshold isGE mode s.
 Arguments roll_dc {S} next rfuel fuel addLine pool points mode s.
-Arguments coc_loop {S} next fuel k mode acc s.
+Arguments coc_loop {S} next fuel k isBonus mode acc s.
+Arguments coc_die {S} next fuel isBonus mode s.
 Arguments fate_loop {S} next fuel k mode sum detail s.
 Arguments wod_round {S} next fuel k addLine points threshold isGE mode show acc s.
 Arguments wod_rounds {S} next rfuel fuel addLine points threshold isGE mode pool show all succ rounds details s.
